@@ -1053,6 +1053,45 @@ def run_c13(ctx, spec):
         expect.append((sd, modes, ops, outs))
         if len(out["samples"]) < 2:
             out["samples"].append(dict(scenario=name, modes=modes, ops=ops[:4]))
+    # ---- step() against generative_step() on scenarios whose costs and values are NOT exactly representable in single
+    # precision (0.1, 0.3, 99.9): no model here, the two calls of the implementation are compared to the last bit
+    from nasim.envs.environment import NASimEnv
+    for _x in range(12 if tier == "quick" else 150):
+        sd = scen.random_sd(rng, max_subnets=3, max_size=2)
+        sdx = dict(sd, costs=(0.1, 0.3, 0.7, 1.2),
+                   exploits=[dict(e, cost=e["cost"] + 0.1, prob=1.0) for e in sd["exploits"]],
+                   privescs=[dict(q, cost=q["cost"] + 0.3, prob=1.0) for q in sd["privescs"]],
+                   hosts=[(a, dict(c, val=c["val"] + 0.3, dval=c["dval"] + 0.1)) for a, c in sd["hosts"]])
+        sdx["sens"] = [(a, dict(sdx["hosts"])[a]["val"]) for a, _ in sd["sens"]]
+        sdx.pop("anames", None)
+        fo = rng.randrange(2)
+        envx = NASimEnv(scen.sd_to_scenario(sdx), fully_obs=bool(fo), flat_actions=True, flat_obs=bool(rng.randrange(2)))
+        runner = ImplRunner(scen.sd_to_scenario(sd), sd, [fo, 1, 0])     # only to guide the walk (same structure)
+        flat = run_driver([[1, scen.sd_wire(sd)]])[0][0]
+        by_target = {}
+        for i, a in enumerate(flat):
+            by_target.setdefault(tuple(a[1]), []).append(i)
+        gen = dyn.CaseGen(rng, dict(oracle=0.6))
+        for _s in range(14):
+            ai = gen.pick_action(runner, flat, by_target)
+            runner.run_op([1, [0, ai], 0])
+            real = np.random.rand
+            np.random.rand = lambda *a_: 0.0
+            try:
+                g = envx.generative_step(envx.current_state, ai)
+                st_ = envx.step(ai)
+            finally:
+                np.random.rand = real
+            evals += 1
+            same = (np.array_equal(g[0].tensor, envx.current_state.tensor) and float(g[2]) == float(st_[1])
+                    and bool(g[3]) == bool(st_[2]) and np.array_equal(np.asarray(g[1].numpy_flat() if envx.flat_obs else g[1].numpy()), np.asarray(st_[0]))
+                    and {k: str(v) for k, v in g[4].items()} == {k: str(v) for k, v in st_[4].items()})
+            if not same:
+                out["violations"].append(viol(pid, "step() and generative_step() on the same state, action and draw differ (costs / "
+                                                   "values not exactly representable in single precision): "
+                                                   f"rewards {float(g[2])!r} vs {float(st_[1])!r}", kind="genstep-record",
+                                              scenario=sdx, flat_action_index=ai, modes=[fo, 1, int(envx.flat_obs)]))
+                break
     mouts = run_driver_parallel(cmds, jobs=12) if cmds else []
     for (sd, modes, ops, outs), m in zip(expect, mouts):
         d = dyn.diff_outs(outs, m[1], dyn.FIELDS["C13"]) if m != [-1] else (0, "model-rejects")
